@@ -4,6 +4,7 @@ from collections import Counter
 
 import numpy as onp
 
+RULE_LATER = " Built later: the record header (params present iff requested and equal to the params the steps of that episode used), over three more episodes with different params on the same object."
 RULE = ("async: G_live witness graphs run once per record-setting class (all fields, none, single fields, per-node dicts, max_records 0/3/large) "
         "from the same initial state under perturbed schedules; every recorded row is compared with the witness host trace entry of the same "
         "(node, seq) (seq, ts, rng, state before, windows incl. payload, output), the state chain is checked, truncated records must hold "
@@ -13,6 +14,7 @@ RULE = ("async: G_live witness graphs run once per record-setting class (all fie
         "evaluation = one (graph, record setting) run; non-trivial = setting that records at least one optional field or truncates; distinct "
         "by spec digest x setting")
 RULE += " Built later: async episodes of different length per setting with message/window consistency; a wall-clock case in which one node's step moves its own ts forward; compiled late starts, reset/step with user-overridden supervisor steps, extra user entries in graph_state.aux."
+RULE += RULE_LATER
 MIN_NONTRIVIAL = {"quick": 24, "thorough": 300}
 DECIDING = ["rows_vs_trace", "runs_compared"]
 ASSUMPTIONS = ["the host trace (ordered io_callback inside the witness step) is independent of rex's recording", "async runs are comparable across settings "
@@ -158,6 +160,16 @@ def run_async(case):
                     present = getattr(nr.steps, f) is not None
                     if present != bool(flags[n][f]) and K > 0:
                         V.append(dict(clause="field_presence_not_as_requested", node=n, field=f, present=present, requested=bool(flags[n][f])))
+                # the record header: params present iff requested, and they are the params the steps of THIS episode used
+                want_p = rec["params"][n] if isinstance(rec["params"], dict) else rec["params"]
+                if (nr.params is not None) != bool(want_p):
+                    V.append(dict(clause="field_presence_not_as_requested", node=n, field="params", present=nr.params is not None, requested=bool(want_p)))
+                elif nr.params is not None:
+                    stats["header_params_checked"] += 1
+                    used = {d["nonce"] for (i, s), d in tb.items() if i == nodes[n].idx}
+                    got = int(onp.asarray(nr.params.nonce))
+                    if used and used != {got}:
+                        V.append(dict(clause="record_params_not_the_params_the_steps_used", node=n, recorded=got, used=sorted(used)[:3]))
                 if maxrec is not None:
                     executed = sum(1 for (i, s) in tb if i == nodes[n].idx)
                     want = min(maxrec, max(executed, K))
@@ -190,6 +202,30 @@ def run_async(case):
             items.append(dict(status="violated", key=key, nontrivial=nontriv, witness=dict(mechanism=V[0]["clause"], violations=V[:4], setting=name, max_records=maxrec, spec=spec, api=api)))
         else:
             items.append(dict(status="held", key=key, nontrivial=nontriv))
+    # record header across episodes with DIFFERENT params on the same object: recorded, switched off, switched on again
+    allf = {f: True for f in ("params", "rng", "inputs", "state", "output")}
+    for nn, recset in ((31, allf), (32, dict(allf, params=False)), (33, allf)):
+        g.set_record_settings(max_records=400, **recset)
+        try:
+            D.call_with_deadline(D.run_episode, 90, g, nodes, sup, gs0, api, 5, nn, None, 0.03, True, False)
+            rec_np = D.npz(g.get_record())
+        except (D.Stall, TypeError, IndexError) as e:
+            items.append(dict(status="rejected", key=f"{dg}/header-{nn}", nontrivial=False, note=f"no record: {e}"[:100]))
+            break
+        V = []
+        for n, nr in rec_np.nodes.items():
+            if recset["params"]:
+                counters["header_params_checked"] += 1
+                got = None if nr.params is None else int(onp.asarray(nr.params.nonce))
+                if got != nn:
+                    V.append(dict(clause="record_params_not_the_params_the_steps_used", node=n, recorded=got, used=[nn], episode_params_differ_from_previous=True))
+            elif nr.params is not None:
+                V.append(dict(clause="field_presence_not_as_requested", node=n, field="params", present=True, requested=False))
+        key = f"{dg}/header-{nn}"
+        if V:
+            items.append(dict(status="violated", key=key, nontrivial=True, witness=dict(mechanism=V[0]["clause"], violations=V[:4], setting=f"header-{nn}", spec=spec, api=api)))
+        else:
+            items.append(dict(status="held", key=key, nontrivial=True))
     samples.append(dict(kind="async", spec_digest=dg, api=api, settings=[s[0] for s in settings], features=S.features(spec)))
     return dict(items=items, counters=dict(counters), samples=samples)
 
